@@ -285,14 +285,11 @@ func (db *TempPool) OperationHashes(
 		nfilter = func(isaac.PoolOperationRecordMeta) (bool, error) { return true, nil }
 	}
 
-	ops := make([][2]util.Hash, limit)
-	removeordereds := make([][]byte, limit)
-	removeops := make([]util.Hash, limit)
+	var ops [][2]util.Hash
+	var removeordereds [][]byte
+	var removeops []util.Hash
 
-	var opsindex uint64
-	var removeorderedsindex, removeopsindex uint64
-
-	facts := map[string]uint64{}
+	facts := map[string]int{} // NOTE fact -> index in ops
 	defer func() {
 		clear(facts)
 		facts = nil
@@ -303,8 +300,7 @@ func (db *TempPool) OperationHashes(
 		func(k []byte, b []byte) (bool, error) {
 			meta, err := ReadFrameHeaderOperation(b)
 			if err != nil {
-				removeordereds[removeorderedsindex] = k
-				removeorderedsindex++
+				removeordereds = append(removeordereds, k)
 
 				return true, nil
 			}
@@ -313,31 +309,29 @@ func (db *TempPool) OperationHashes(
 			case err != nil:
 				return false, err
 			case !ok:
-				removeops[removeopsindex] = meta.Operation()
-				removeopsindex++
+				removeops = append(removeops, meta.Operation())
 
 				return true, nil
 			}
 
-			// NOTE filter duplicated fact; last one will be selected
+			// NOTE filter duplicated fact; last one will be selected, the
+			// previous one is removed
 			if prev, found := facts[meta.Fact().String()]; found {
-				removeops[removeopsindex] = meta.Operation()
-				removeopsindex++
+				removeops = append(removeops, ops[prev][0])
 
-				nops := make([][2]util.Hash, len(ops))
-				copy(nops, ops[:prev])
-				copy(nops[prev:], ops[prev+1:])
+				ops = append(ops[:prev], ops[prev+1:]...)
 
-				ops = nops
-
-				opsindex--
+				for i := range facts {
+					if facts[i] > prev {
+						facts[i]--
+					}
+				}
 			}
 
-			ops[opsindex] = [2]util.Hash{meta.Operation(), meta.Fact()}
-			facts[meta.Fact().String()] = opsindex
-			opsindex++
+			ops = append(ops, [2]util.Hash{meta.Operation(), meta.Fact()})
+			facts[meta.Fact().String()] = len(ops) - 1
 
-			if opsindex == limit {
+			if uint64(len(ops)) == limit {
 				return false, nil
 			}
 
@@ -348,15 +342,15 @@ func (db *TempPool) OperationHashes(
 		return nil, e.Wrap(err)
 	}
 
-	if err := db.removeNewOperationOrdereds(removeordereds[:removeorderedsindex]); err != nil {
+	if err := db.removeNewOperationOrdereds(removeordereds); err != nil {
 		return nil, e.Wrap(err)
 	}
 
-	if err := db.setRemoveNewOperations(ctx, height, removeops[:removeopsindex]); err != nil {
+	if err := db.setRemoveNewOperations(ctx, height, removeops); err != nil {
 		return nil, e.Wrap(err)
 	}
 
-	return ops[:opsindex], nil
+	return ops, nil
 }
 
 func (db *TempPool) TraverseOperationsBytes(
